@@ -289,9 +289,15 @@ func converterPart(c *harness.Check) {
 			f, nontrivial, dlc := converterCase(dc, w, t, bin, seq, i)
 			c.Distinct("conv|"+canonKey(seq), nontrivial)
 			if f != nil {
-				report(12<<48|i, f.sig(), f.what(seq), replayOfConverter(dc, seq, i, *f))
+				// if the same rules already fail in-process, report that simpler failure
+				fs, fseq, _ := dc.checkCase(w, t, seq, domOpts{direct: true, paths: fullPaths, clearX: true, nocount: true})
+				if len(fs) > 0 {
+					report(12<<48|i, fs[0].sig(), fs[0].what(fseq), replayOfDomain(dc, fseq, fs[0]))
+				} else {
+					report(12<<48|i, f.sig(), f.what(seq), replayOfConverter(dc, seq, i, *f))
+				}
 			}
-			if i == 7 || i == int64(len(cases))-1 {
+			if i == 7 {
 				c.Sample(map[string]any{"part": "domain/converter-command", "rules": itemsJSON(seq[:min(8, len(seq))]), "rule_count": len(seq), "dlc_input_head": dlc[:min(200, len(dlc))]})
 			}
 		})
